@@ -1,10 +1,26 @@
-(** C04 — no lost invalidation in the reactive graph / rerunner (first increment: pipeline). *)
+(** C04 — no lost invalidation in the reactive graph / rerunner.
+
+    Model: Reactive/Graph.v, Reactive/Rerunner.v (labelled transition system, one label per critical section of
+    reactive/graph.go and reactive/rerunner.go; a schedule is a list of labels).  [reachable (init k progs) s]:
+    s is reached from the initial state (k slots with fresh resources, one rerunner per program, each with its
+    initial [go r.run()]) by some list of labels. *)
 From Coq Require Import List.
-From Thunder Require Import Reactive.Graph Reactive.Rerunner.
+From Thunder Require Import Reactive.Graph Reactive.Rerunner Reactive.ProofsBase Reactive.ProofsEdge.
 Import ListNotations.
 
-(* every run of the model starts with one waiting run task per rerunner: the initial state is not quiescent *)
-Theorem init_not_quiescent_partial :
-  forall nslots p ps, ~ quiescent (init nslots (p :: ps)).
-Proof. intros nslots p ps H. unfold quiescent, init in H. simpl in H. discriminate H. Qed.
-Print Assumptions init_not_quiescent_partial.
+(** Edge invariant (DESIGN A.3) in every reachable state, under every schedule: a dependant of an invalidated
+    node is invalidated or some goroutine is on its way to invalidate it. *)
+Theorem edge_invariant :
+  forall k progs s, reachable (init k progs) s ->
+  forall n to, In to (n_out (getN s n)) -> n_inv (getN s n) = true ->
+    n_inv (getN s to) = true \/ pending (all_frames s) to.
+Proof. intros k progs s R. exact (proj2 (reachable_edge k progs s R)). Qed.
+Print Assumptions edge_invariant.
+
+(** ... hence at quiescence (no goroutine left) invalidation has reached every dependant, whatever the
+    interleaving of Invalidate / Strobe / addOut / release / handler registration was. *)
+Theorem no_lost_invalidation_in_graph_partial :
+  forall k progs s, reachable (init k progs) s -> quiescent s ->
+  forall n to, In to (n_out (getN s n)) -> n_inv (getN s n) = true -> n_inv (getN s to) = true.
+Proof. exact quiescent_closed. Qed.
+Print Assumptions no_lost_invalidation_in_graph_partial.
